@@ -76,8 +76,9 @@ let parse_case (s : string) : scn =
     cfg = { c_mtus = !mtus; c_routers = List.rev !routers; c_hosts = List.rev !hosts };
     dgrams = List.rev !dgrams }
 
-let node_of (s : string) : node option =
-  if s = "-" then None
+(* "-" = a MAC address that no tap of that network has: a station that takes nothing *)
+let node_of ?(nobody = 1000000) (s : string) : node option =
+  if s = "-" then Some (NHost (n_of_int nobody))
   else
     let i = ni (String.sub s 1 (String.length s - 1)) in
     match s.[0] with
@@ -167,7 +168,8 @@ let validate_line (line : string) : string =
           | _ -> raise (Bad "impl section")) secs;
     let frames = List.rev !frames and rxs = List.rev !rxs in
     if not quiet then "REJECT the networks did not fall silent"
-    else if validate s.cfg s.dgrams frames rxs then "ACCEPT"
+    else if validate s.cfg s.dgrams frames rxs then
+      (if all_ideal s.cfg N0 s.dgrams frames then "ACCEPT" else "ACCEPT arp-divergent")
     else begin
       (* say which datagram *)
       let why = ref "a frame or delivery that belongs to no datagram" in
